@@ -11,13 +11,15 @@ for d in sorted(glob.glob('/verif/seeded/*')):
         if isinstance(v, dict) and v.get('caught'):
             how.append('no-failing-input-found' if any('no-failing-input-found' in l for l in v['violation_lines']) else 'failing input')
     verdict = ('caught by ' + ', '.join(sorted(set(caught))) + ' (' + ', '.join(sorted(set(how))) + ')') if caught else '**missed**'
+    if m.get('superseded'):
+        verdict = 'not a violation any more: ' + m['superseded']
     files = ', '.join(os.path.basename(f) for f in m.get('files', []))
     summ = (m.get('summary') or '').replace('|', '/').replace('\n', ' ')
     if len(summ) > 150:
         summ = summ[:147] + '...'
     rows.append(f"| {os.path.basename(d)} | {files} | {summ} | {verdict} |")
 tab = ['| change | file | what was changed | quick check verdict |', '|---|---|---|---|'] + rows
-n_c = sum('missed' not in r for r in rows)
+n_c = sum('**missed**' not in r for r in rows)
 tab.append('')
 tab.append(f'{n_c} of {len(rows)} caught by a quick check at the time of writing (after the strengthening above).')
 p = '/verif/DESIGN.md'
